@@ -31,6 +31,11 @@ def main():
             kw = {"missing": fill(c["missing"]), "oob": fill(c["oob"])}
             if c["bins"]:
                 kw.update(bins=c["bins"], summary=c["stat"], exact=True)
+            if c.get("arr"):
+                # a caller-supplied, previously used output array: its old contents must not show through
+                import numpy as np
+                n = c["bins"] if c["bins"] else (c["e"] - c["s"])
+                kw["arr"] = np.full(n, 777.25, dtype=np.float64)
             v = b.values(c["chrom"], c["s"], c["e"], **kw)
             c["obs"] = {"result": "ok", "out": [enc(x) for x in v]}
         except BaseException as ex:      # pyo3 panics surface as PanicException (BaseException)
